@@ -18,7 +18,7 @@ import vlib
 from vlib import VERIF, CACHE, sh
 from checks import c10 as c10mod
 
-LEVEL = "proof"
+LEVEL = "other"
 AREA = c10mod.AREA
 THEOREMS = ["C18_fork_join_partial", "C18_join", "C18_try_join", "C18_vec_map", "C18_encode_tasks", "C18_correlate",
             "C18_modulo_assumptions", "C18_nonvacuous"]
@@ -90,6 +90,7 @@ def parse(out):
 
 
 def run(chk):
+    chk.coverage["explanation"] = ("partial: Coq theorem (coq/updateio/Par.v) that every interleaving of a fork-join program over disjoint state yields the sequential result, instantiated to the encoder's task structure; that the Rust closures are such tasks and that rayon implements fork-join is checked by a source scan and by byte-comparing serial and rayon builds at pool sizes 1,2,3,8,16 (schedules sampled, not enumerated)")
     chk.assumptions = [
         "PARTIAL: the theorems are about the fork-join model; that the Rust closures are deterministic tasks on disjoint state is the borrow checker's (distinct &mut captures, get_disjoint_mut, Send bounds, #![forbid(unsafe_code)]) and is only scanned textually here",
         "that rayon::join and into_par_iter().map().collect() implement fork-join with order-preserving collect is rayon's contract, trusted",
